@@ -12,7 +12,7 @@ import (
 //   - Nullable: Null=true, or the inner value itself
 //   - Array: L = elements; Tuple: L = elements; Map: L = pairs, each pair a Val with L=[key,value]
 type Val struct {
-	Null bool  `json:"null,omitempty"`
+	Null bool   `json:"null,omitempty"`
 	B    []byte `json:"b,omitempty"`
 	L    []Val  `json:"l,omitempty"`
 	IsL  bool   `json:"isl,omitempty"` // distinguishes an empty list from an empty leaf
